@@ -162,6 +162,75 @@ pub fn random_grammar(rng: &mut Rng, cfg: &GenCfg) -> AGrammar {
     g
 }
 
+/// layered grammars: 4-7 rules, rule i refers mostly to later rules (so the grammar is mostly
+/// acyclic and often conflict-free), with unit chains, nullable chains and optional tails; facts
+/// about late rules (nullable, FIRST) need several rounds to reach the early ones
+pub fn layered_grammar(rng: &mut Rng) -> AGrammar {
+    let nrules = rng.range(4, 7);
+    let ntoks = rng.range(2, 5);
+    let p_unit = *rng.pick(&[20usize, 40, 60]);
+    let p_eps = *rng.pick(&[20usize, 40]);
+    let mut rules = Vec::new();
+    for i in 0..nrules {
+        let last = i + 1 == nrules;
+        let np = if last { 1 } else { rng.range(1, 2) };
+        let mut prods = Vec::new();
+        for k in 0..np {
+            let syms: Vec<S> = if last || (i + 2 >= nrules && rng.chance(p_eps, 100)) {
+                if rng.chance(p_eps, 100) || (last && k == 0 && rng.chance(1, 2)) { vec![] } else { vec![S::T(rng.below(ntoks))] }
+            } else if rng.chance(p_unit, 100) {
+                vec![S::R(rng.range(i + 1, nrules - 1))]
+            } else {
+                let len = rng.range(1, 3);
+                (0..len)
+                    .map(|j| {
+                        if rng.chance(45, 100) {
+                            S::T(rng.below(ntoks))
+                        } else if j > 0 && rng.chance(1, 10) {
+                            S::R(rng.below(i + 1))
+                        } else {
+                            S::R(rng.range(i + 1, nrules - 1))
+                        }
+                    })
+                    .collect()
+            };
+            prods.push(AProd { syms, prec: None });
+        }
+        rules.push(prods);
+    }
+    if nrules >= 5 && rng.chance(1, 3) {
+        // a nullable unit chain at the end, used in front of a token by an earlier rule
+        let n = nrules;
+        rules[n - 3] = vec![AProd { syms: vec![S::R(n - 2)], prec: None }];
+        rules[n - 2] = vec![AProd { syms: vec![S::R(n - 1)], prec: None }];
+        rules[n - 1] = if rng.chance(1, 2) {
+            vec![AProd { syms: vec![], prec: None }]
+        } else {
+            vec![AProd { syms: vec![], prec: None }, AProd { syms: vec![S::T(rng.below(ntoks))], prec: None }]
+        };
+        let i = rng.below(n - 3);
+        let t = rng.below(ntoks);
+        rules[i].push(AProd { syms: vec![S::R(n - 3), S::T(t)], prec: None });
+    }
+    AGrammar { nrules, ntoks, rules, precs: vec![], expect: None, expectrr: None, avoid_insert: vec![] }
+}
+
+/// grammars in which Pager's construction first keeps two same-core states apart, later merges a
+/// third context into one of them so that it becomes compatible with everything, re-points the only
+/// predecessor of the other and so ORPHANS a chain of states (which `gc` must remove). Shape found by
+/// a seeded-change experiment (seeded/C16), parameterised here by the two delays.
+pub fn pager_orphan_family(rng: &mut Rng) -> String {
+    let k1 = rng.range(2, 5);
+    let k2 = k1 + rng.range(1, 3);
+    let rs = vec!["'r'"; k1].join(" ");
+    let ns = vec!["'n'"; k2].join(" ");
+    let (e_body, f_body) = if rng.chance(1, 2) { ("'z' 'w'", "'z' 'v'") } else { ("'z' 'z' 'w'", "'z' 'z' 'v'") };
+    format!(
+        "%start S\n%%\nS: 'p' T1 'd' | 'p' T2 'e'\n | 'm' H1 'e' | 'm' H2 'd'\n | {rs} T1 'c' | {rs} T2 'c'\n | {ns} H1 'x' | {ns} H2 'y';\nH1: 'q' T1;\nH2: 'q' T2;\nT1: 'b' E;\nT2: 'b' F;\nE: {e};\nF: {f};\n",
+        rs = rs, ns = ns, e = e_body, f = f_body
+    )
+}
+
 pub fn build(text: &str) -> Result<YaccGrammar<u32>, String> {
     YaccGrammar::new(YaccKind::Original(YaccOriginalActionKind::GenericParseTree), text)
         .map_err(|e| format!("{:?}", e.iter().map(|x| x.to_string()).collect::<Vec<_>>()))
